@@ -118,6 +118,15 @@ same loop - is refuted: a rejected definition has already changed the calendar (
 check of all values, is fine).  fold: the operator may be a local / module function of two parameters with guards and
 `return a OP b` / `return operator.itruediv(a, b)`; its zero-divisor RuntimeError is treated like the in-line F40 guard.
 
+Round 9 additions.  run_block also values `x op= E` on plain locals and hands the tracked locals back (Outcome.local),
+so an accumulator update spliced as `tmp = acc; tmp /= v; acc = tmp` is read; an operator function may take extra
+arguments.  New fold form: one lazy None-filtered generator, `acc = next(gen, None)`, `for u in gen: acc OP= u`.
+DirectCalendar writers: a filtered comprehension is read, and a filter that drops a legal value (0 or positive) is
+refuted.  search: the capacity compared with a positive constant other than 0 (a threshold) is refuted.  op_table: a
+unary wrapper whose function computes with None (`lambda u: u / other`) is refuted; promotion: `other` handed on
+as it is on a path that numbers never reach (an earlier branch took them) is a site, not "unpromoted".  Under C17 only:
+a method of Weekly/DirectCalendar that returns the internal table itself (no copy) is refuted (leaf_semantics).
+
 The decision procedures evaluate the (loop free) blocks over finite abstract domains (see c17_util): unit values by
 sign class {None, <0, 0, >0}, dates by their position against a validity interval, direction in {-1, +1}.
 
@@ -951,6 +960,96 @@ def _functional_or(ctx, o, f, K):
     return True
 
 
+def _seeded_fold(ctx, o, orr, osb, f, K, d, pre, loop, tail):
+    """`known = (u for u in (c.get_available_units(date) for c in self.F) if u is not None)`;
+    `acc = next(known, None)`; `for u in known: acc OP= u`; tail.   The one lazy generator is consumed by the seed and
+    then by the loop, so the first informative operand starts and every later one is combined.
+    False when the function is not in that form (nothing reported)"""
+    prog = ctx.prog
+    want = OPS[d]
+    date = f.params[1] if len(f.params) > 1 else None
+    if date is None or not isinstance(loop.iter, ast.Name) or not isinstance(loop.target, ast.Name):
+        return False
+    G = loop.iter.id
+    gens = [st for st in pre if isinstance(st, ast.Assign) and len(st.targets) == 1 and _name(st.targets[0], G)]
+    if len(gens) != 1 or not isinstance(gens[0].value, ast.GeneratorExp) or len(flow_of(f).defs_of(G)) != 1:
+        return False
+    seeds = [st for st in pre if isinstance(st, ast.Assign) and len(st.targets) == 1 and isinstance(st.targets[0], ast.Name)
+             and match(f"next({G}, None)", st.value)]
+    if len(seeds) != 1:
+        return False
+    acc = seeds[0].targets[0].id
+    uses = [n for n in walk_no_nested(f.node) if isinstance(n, ast.Name) and n.id == G and isinstance(n.ctx, ast.Load)]
+    if len(uses) != 2 or len([d_ for d_ in flow_of(f).defs_of(acc) if not any(d_.stmt is x for x in ast.walk(loop))]) != 1:
+        return False
+    ex = Expander(prog, f, ctx.typer)
+    cfg = cfg_of(f)
+    S = ex.expand(gens[0].value, cfg.node_of(gens[0]))
+    st_ = _operand_stream(S, date)
+    if st_ is None:
+        return False
+    if not _field_iter(ctx, osb, f, _Anchor(loop, st_[0]), K):
+        return True
+    if st_[1] != 'none':
+        osb.refute(f, gens[0], gens[0], f"{K} folds the values of all operands, including None (no information): exactly the None operands must be skipped")
+        return True
+    accn, v = _e(acc), _e(loop.target.id)
+    found = None
+    for sv, sa in itertools.product((-1, 0, 1), (-1, 0, 1)):
+        r = run_block(loop.body, Ev([(v, sv, 'sign'), (accn, sa, 'sign')]), ex)
+        case = f"operand value {SIGN_NAME[sv]}, accumulator {SIGN_NAME[sa]}"
+        if r.kind in ('unknown', 'wouldraise'):
+            osb.undecided(f, r.stmt, r.stmt, f"{K} fold ({case}): {r.why}")
+            return True
+        if r.kind in ('return', 'break', 'raise'):
+            osb.refute(f, r.stmt, r.stmt, f"{K} leaves the fold early ({case}): later operands are ignored")
+            return True
+        val = r.local.get(acc) if r.local else None
+        this = None
+        if isinstance(val, ast.BinOp):
+            if same(val.left, accn) and same(val.right, v):
+                this = (type(val.op), False)
+            elif same(val.right, accn) and same(val.left, v):
+                this = (type(val.op), True)
+        if val is None:
+            osb.refute(f, loop, f"skip:{SIGN_NAME[sv]}", f"{K} skips an informative operand ({case}): only None operands may be skipped")
+            return True
+        if this is None or (found is not None and found != this):
+            osb.undecided(f, loop, loop, f"{K}: accumulator update `{src(val)[:50]}` is not `acc OP operand value` ({case})")
+            return True
+        found = this
+    osb.site(f, loop, f"{K}: None filtered out lazily, next() seeds with the first informative operand, the loop combines the rest")
+    upd = next((n for n in walk_no_nested(loop) if isinstance(n, (ast.AugAssign, ast.Assign))), loop)
+    if found[0] is not want:
+        o.refute(f, upd, upd, f"`{d}` builds {K}, whose fold applies `{SYM.get(found[0], found[0].__name__)}` instead of `{SYM[want]}`")
+    elif found[1] and want in (ast.Sub, ast.Div):
+        o.refute(f, upd, upd, f"{K} computes `operand {SYM[want]} accumulator`: operands of `{SYM[want]}` are swapped")
+    else:
+        o.site(f, upd, f"{K} folds with {SYM[want]}")
+    okt = True
+    for sa in SIGNS:
+        r = run_block(tail, Ev([(accn, sa, 'sign')]), ex)
+        if r.kind != 'return':
+            orr.undecided(f, r.stmt or f.node, r.stmt or f.name, f"{K} result (accumulator {SIGN_NAME[sa]}): {r.kind} {r.why}")
+            return True
+        isacc = same(r.value, accn)
+        isnone = (isinstance(r.value, ast.Constant) and r.value.value is None) or (isacc and sa is None)
+        none_expected = sa is None or (want is ast.Sub and sa == -1)
+        if none_expected and not isnone:
+            orr.refute(f, r.stmt, r.stmt, f"{K} returns `{src(r.value)[:50]}` although " + ("nothing contributed" if sa is None else "the difference is negative") + ": expected None")
+            okt = False
+        elif not none_expected and not isacc:
+            if isinstance(r.value, ast.Constant):
+                orr.refute(f, r.stmt, r.stmt, f"{K} returns `{src(r.value)}` when the result is {SIGN_NAME[sa]}: expected the computed value")
+                okt = False
+            else:
+                orr.undecided(f, r.stmt, r.stmt, f"{K} returns `{src(r.value)[:50]}`")
+                return True
+    if okt:
+        orr.site(f, tail[-1] if tail else f.node, f"{K}: " + ("None iff empty or < 0" if want is ast.Sub else "accumulator returned unchanged"))
+    return True
+
+
 def _acc_name(pre, loop):
     inloop = set()
     for st in loop.body:
@@ -1023,6 +1122,10 @@ def _folds(ctx, table):
         sp = _loop_split(f)
         H = None
         g = f
+        if sp is not None and OPS[d] is not None and f.cls == K:
+            ro2, rr2, rs2 = Rec(), Rec(), Rec()
+            if _seeded_fold(c2, ro2, rr2, rs2, f, K, d, *sp):
+                return ro2, rr2, rs2
         if sp is None:
             fh = _fold_helper(c2, f)
             if fh is None and OPS[d] is None and f.cls == K:
@@ -1296,10 +1399,10 @@ def _arith(ctx, o, orr, osb, f, K, d, pre, loop, tail, H=None):
                         this = (oc[0], oc[1])
                     elif same(rhs.args[1], accn) and same(rhs.args[0], v):
                         this = (oc[0], not oc[1])
-            if this is None and isinstance(rhs, ast.Call) and len(rhs.args) == 2 and not rhs.keywords and oc is None:
+            if this is None and isinstance(rhs, ast.Call) and len(rhs.args) >= 2 and not rhs.keywords and oc is None:
                 # the operator is a local / module function of two parameters: optional guards, then `return a OP b`
                 g = _callable_def(prog, f, rhs.func, H)
-                if g is not None and len(g.params) == 2 and (
+                if g is not None and len(g.params) == len(rhs.args) and (
                         (same(rhs.args[0], accn) and same(rhs.args[1], v)) or (same(rhs.args[1], accn) and same(rhs.args[0], v))):
                     flipped = same(rhs.args[1], accn)
                     pa, pb = (g.params[1], g.params[0]) if flipped else (g.params[0], g.params[1])
@@ -1894,7 +1997,9 @@ class _Store:
             return en
         from sa.flow import subst
         sb = lambda x: subst(x, self.sub) if x is not None else None
-        return U.Entry(en.kind, key=sb(en.key), value=sb(en.value), target=en.target, it=sb(en.it), expr=sb(en.expr), node=en.node)
+        out = U.Entry(en.kind, key=sb(en.key), value=sb(en.value), target=en.target, it=sb(en.it), expr=sb(en.expr), node=en.node)
+        out.ifs = [sb(c) for c in en.ifs]
+        return out
 
     def binds(self, ctx, en):
         """(target, iterable) of the comprehension / enclosing loops that bind the entry's key and value"""
@@ -2515,6 +2620,9 @@ def _weekly_table(ctx, o, field):
         for en0 in entries:
             if en0.kind in ('empty', 'state'):
                 continue
+            if en0.kind == 'comp' and en0.ifs:
+                o.undecided(f, stmt, stmt, "day table built by a filtered comprehension")
+                continue
             if en0.kind in ('comp', 'pair'):
                 binds = S.binds(ctx, en0)
                 en = S.entry(en0)
@@ -2690,6 +2798,24 @@ def _direct(ctx, o, field):
                     o.undecided(w, stmt, stmt, "table entries are not taken from `for k, v in <mapping>.items()`")
                     continue
                 k, v, D = kv
+                if en.ifs:
+                    cond = en.ifs[0] if len(en.ifs) == 1 else ast.BoolOp(op=ast.And(), values=list(en.ifs))
+                    dropped = None
+                    try:
+                        for sgn in (0, 1):
+                            if not Ev([(_e(v), sgn, 'sign')]).truth(cond):
+                                dropped = sgn
+                                break
+                    except (U.Unknown, U.WouldRaise) as u_:
+                        okk = False
+                        o.undecided(w, stmt, stmt, f"table entries are filtered by `{src(cond)[:50]}`: {u_.why}")
+                        continue
+                    if dropped is not None:
+                        okk = False
+                        o.refute(w, stmt, cond, f"DirectCalendar.{w.name} stores only the entries with `{src(cond)[:50]}`: a configured value that is "
+                                                f"{SIGN_NAME[dropped]} is dropped, so the day reads back as None (no information) instead of the "
+                                                f"configured value" + (" and does not override an earlier entry" if w.name != '__init__' else ''))
+                        continue
                 if midnight_of(en.key, k) and _name(en.value, v):
                     continue
                 okk = False
@@ -2754,6 +2880,24 @@ def _leaf_semantics(ctx):
             o.undecided(prog.func('calendar.DirectCalendar.get_available_units'), None, 'Direct', "table field not recognised")
         else:
             _direct(ctx, o, vf[0])
+        # ---- the validated table is not handed out: a method that returns the mapping itself (not a copy) lets a caller
+        # reconfigure the calendar without any validation
+        for cls in (('WeeklyCalendar', 'DirectCalendar') if str(getattr(o, 'id', '')).startswith('C17') else ()):
+            # (only under C17: the scheduler properties that share this check do not speak about who may edit a calendar)
+            vf = _value_field(ctx, cls)
+            if vf is None or vf[1] != 'mapping':
+                continue
+            ci = prog.cls(cls)
+            for m_ in list(ci.methods.values()) + list(ci.getters.values()):
+                if m_.name.startswith('__') or m_.kind == 'static' or not m_.params:
+                    continue
+                exm = Expander(prog, m_, ctx.typer)
+                for rt in [n for n in walk_no_nested(m_.node) if isinstance(n, ast.Return) and n.value is not None]:
+                    for _, leaf in _ret_leaves(exm.expand(rt.value)):
+                        if isinstance(leaf, ast.Attribute) and leaf.attr == vf[0] and _name(leaf.value, m_.params[0]):
+                            o.refute(m_, rt, rt, f"{cls}.{m_.name} returns the internal table `{unmangle(vf[0])}` itself, not a copy: a caller "
+                                                 f"editing the returned dict changes what the calendar answers, without the 0..6 / "
+                                                 f">= 0 validation of its definition")
     ctx.guarded(o, body)
 
 
@@ -3218,6 +3362,23 @@ def _search(ctx):
                 o.undecided(f, n, n, "capacity query in an unrecognised shape")
                 return
             xcalls.append((n, xc))
+        # "positive capacity" is `> 0`: a comparison of the capacity with another positive number is a threshold
+        for n in walk_no_nested(loop):
+            t = n.test if isinstance(n, (ast.If, ast.While, ast.IfExp)) else None
+            if t is None:
+                continue
+            cn = cfg.node_containing(t)
+            xt = ex.expand(t, cn) if cn is not None else t
+            for c in [x for x in ast.walk(xt) if isinstance(x, ast.Compare) and len(x.ops) == 1]:
+                for capx, lim, flip in ((c.left, c.comparators[0], False), (c.comparators[0], c.left, True)):
+                    k = facts.const_num(lim)
+                    if k is None or k <= 0 or not any(same(capx, xc) for _, xc in xcalls):
+                        continue
+                    opn = U._OPS.get(type(c.ops[0]))
+                    if opn is not None:
+                        o.refute(f, n, c, f"the search compares the capacity with {k!r} (`{src(c)[:60]}`), not with 0: a date whose "
+                                          f"positive capacity does not exceed that threshold is not taken as available")
+                        return
 
         def offsets(direction):
             """{day offset from the current date: [expanded capacity queries]} for one direction; None after a verdict"""
